@@ -10,6 +10,7 @@ import (
 	"path/filepath"
 	"sort"
 	"strings"
+	"time"
 
 	protoMetricsV1 "github.com/lindb/common/proto/gen/v1/linmetrics"
 	"github.com/lindb/roaring"
@@ -76,6 +77,10 @@ func (H) Gen(prop string, rng *rand.Rand, tier string) *core.Plan {
 				p.Ops = append(p.Ops, core.Op{K: "field", T: 0, A: int64(ns), B: int64(nm), C: int64(rng.Intn(len(fields)))})
 			case r < 88:
 				p.Ops = append(p.Ops, core.Op{K: "series", T: 1 + rng.Intn(shards), A: int64(ns), B: int64(nm), C: int64(rng.Intn(8))})
+			case r < 91 && ph > 0:
+				// adversarial schedule: the caller is held at its C-th yield point while another caller creates the
+				// same name and a complete flush cycle passes, then continues; afterwards the name is asked again
+				p.Ops = append(p.Ops, core.Op{K: "suspend", T: rng.Intn(1 + shards), A: int64(ns), B: int64(nm), C: int64(1 + rng.Intn(90)), S: fmt.Sprint(rng.Intn(8))})
 			case r < 94:
 				p.Ops = append(p.Ops, core.Op{K: "flushmeta", T: 0})
 			default:
@@ -92,15 +97,15 @@ func (H) End(c *core.RunCtx, end string) (string, string) {
 }
 
 type ledger struct {
-	metricID map[string]uint32     // ns|name -> id
-	metricOf map[uint32]string     // id -> ns|name
-	fieldID  map[string]uint32     // metricID|field -> id
-	tagKeyID map[string]uint32     // metricID|key -> id
-	keyOwner map[uint32]string     // tag key id -> metricID|key
-	tagValID map[string]uint32     // tagKeyID|value -> id
-	valOwner map[string]string     // tagKeyID|id -> value
-	seriesID map[string]uint32     // shard|metricID|tagset -> id
-	serOwner map[string]string     // shard|metricID|id -> tagset
+	metricID map[string]uint32 // ns|name -> id
+	metricOf map[uint32]string // id -> ns|name
+	fieldID  map[string]uint32 // metricID|field -> id
+	tagKeyID map[string]uint32 // metricID|key -> id
+	keyOwner map[uint32]string // tag key id -> metricID|key
+	tagValID map[string]uint32 // tagKeyID|value -> id
+	valOwner map[string]string // tagKeyID|id -> value
+	seriesID map[string]uint32 // shard|metricID|tagset -> id
+	serOwner map[string]string // shard|metricID|id -> tagset
 }
 
 func newLedger() *ledger {
@@ -569,6 +574,70 @@ func (H) Run(c *core.RunCtx) {
 							shard = 1
 						}
 						n.genSeries(shard, nss[o.A%2], names[o.B%4], int(o.C%8))
+					case "suspend":
+						ts := int(atoiS(o.S) % 8)
+						call := func() {
+							if o.T == 0 {
+								n.genMetric(nss[o.A%2], names[o.B%4])
+								return
+							}
+							shard := o.T
+							if n.idx[shard] == nil {
+								shard = 1
+							}
+							n.genSeries(shard, nss[o.A%2], names[o.B%4], ts)
+						}
+						me, count, held, released := sim.CurTask(), 0, false, false
+						prev := sim.OnYield
+						sim.OnYield = func(label string) {
+							if prev != nil {
+								prev(label)
+							}
+							if held || n.dead || sim.CurTask() != me {
+								return
+							}
+							if count++; count != int(o.C) {
+								return
+							}
+							held = true
+							sim.Fault("caller-suspended")
+							sim.Event("caller held at yield #%d %s", count, label)
+							flushing++ // the phase ends only after the competitor is done
+							sim.SpawnIn(n.inc, "competitor", func() {
+								defer func() { released = true; flushing-- }()
+								call() // another caller, same name
+								sim.Await(func() bool { return metaFlushing == 0 || n.dead })
+								if n.dead {
+									return
+								}
+								metaFlushing++
+								snapshot := n.snapshotMetricNames()
+								n.meta.PrepareFlush()
+								if err := n.meta.Flush(); err == nil {
+									for _, k := range snapshot {
+										n.flushedMeta[k] = true
+									}
+								}
+								metaFlushing--
+								if o.T > 0 {
+									shard := o.T
+									if n.idx[shard] == nil {
+										shard = 1
+									}
+									n.idx[shard].PrepareFlush()
+									_ = n.idx[shard].Flush()
+								}
+							})
+							// the held caller may sit inside a critical section the competitor needs: give up after a
+							// while of simulated time (which only passes when nobody can run)
+							t0 := sim.Elapsed()
+							sim.Await(func() bool { return released || n.dead || sim.Elapsed()-t0 > 200*time.Millisecond })
+						}
+						call()
+						sim.OnYield = prev
+						if !n.dead && !c.Violated() {
+							call() // a later caller: the name must still have its id
+						}
 					case "flushmeta":
 						// as tsdb/memdb's metadata worker: PrepareFlush in the worker, Flush in its own goroutine
 						// the flush checker never starts a flush of a database while one is running
@@ -690,4 +759,14 @@ func (n *node) snapshotMetricNames() []string {
 	}
 	sort.Strings(out)
 	return out
+}
+
+func atoiS(s string) int64 {
+	var n int64
+	for _, ch := range s {
+		if ch >= '0' && ch <= '9' {
+			n = n*10 + int64(ch-'0')
+		}
+	}
+	return n
 }
